@@ -4,6 +4,7 @@ CONSTANTS
   Vals = {1}
   INF = 1000000
   MaxDim = 3
+  MaxBlocked = 0
   AssignInf = FALSE
   FlagDims = {2, 3}
   Mode = "flag"
